@@ -33,7 +33,7 @@ RULE = ('chunk cases = all (n, c) with 1 <= n <= 200, 1 <= c <= 64; trajectory c
 ASSUMPTIONS = ['build shim np.int -> np.int64, np.int_t -> np.int64_t on a scratch copy (the shipped .pyx does not cythonize against the pinned numpy)',
                'tolerance 1e-4*max(1,|omega|): float32 coordinates and accumulation; excluded inputs: coincident sites, coordinates more than one box length apart',
                'gcc libgomp/libasan/libubsan are trusted']
-MINIMA = {'quick': {'chunk.partition_checked': 12000, 'debye.compared': 40, 'debye.schedules': 400, 'asan.cases': 12},
+MINIMA = {'quick': {'chunk.partition_checked': 12000, 'debye.compared': 15, 'debye.schedules': 150, 'asan.cases': 8},          # an unloaded run gives 120 / 1400 / 40; a machine shared with other jobs far less
           'thorough': {'chunk.partition_checked': 12800, 'debye.compared': 80, 'debye.schedules': 4000, 'asan.cases': 60}}
 SHARDS = {'quick': 4, 'thorough': 16}
 TIME_BUDGET = {'quick': 50, 'thorough': 300}
@@ -193,11 +193,20 @@ def run_traj(ctx, case):
         set_team(team)
         for nt in nts:
             D = _S['mod'].Debyer(domain=dom, nthreads=nt)
+            if nt % 3 == 0 and N1 >= 4:
+                # the analyser object has been used before, for a smaller selection (omega of a minority type first)
+                sub = slice(0, max(2, N1 // 3))
+                D.calculate(np.array(p1[:, sub]), np.array(p1[:, sub]), np.array(m1[sub]), np.array(m1[sub]), np.array(box), True)
+                ctx.hook('debye.object_reused_after_smaller_selection')
             # how the caller holds the arrays: fresh contiguous copies, a column of a (site, [type, molecule]) table (strided int64 view),
             # every other element of a longer array, a row of a table, Fortran-ordered or float64 coordinates
             lay = (case['seed'] + nt) % 6
 
             def labels(m):
+                if (case['seed'] // 6) % 4 == 1:
+                    m = m + 2 ** 24 + 1             # global molecule ids of a large simulation (beyond the exactly representable float32 integers)
+                elif (case['seed'] // 6) % 4 == 2:
+                    m = m * 3 + 2 ** 40
                 if lay == 1:
                     return np.stack([np.zeros_like(m), m], axis=1)[:, 1]
                 if lay == 2:
